@@ -215,3 +215,56 @@ def users_write_sites(P, f, skip_fields=()):
             continue
         out.append((node, xexpr, xk, fld, val, kind))
     return out
+
+
+# ------------------------------------------------------------- liveness predicates
+
+def _now_resolver(d):
+    """Atoms that are variables holding time(NULL) are rewritten to time(0)."""
+    m = {}
+    for f in d:
+        g = f.fact if f.kind == "hist" else f
+        if f.kind in ("cmp", "hist") and g.op == "==" and g.key[2] == "time(0)" and isinstance(g.key[0], str) \
+                and g.key[0].isidentifier():
+            m[g.key[0]] = "time(0)"
+    return lambda key: m.get(key)
+
+
+def liveness(d, xk, hist=False, field="last_pkt"):
+    """Liveness tests on users[xk].last_pkt known in disjunct d, normalised:
+    list of (form, K) with form in
+      'expired'      last_pkt + K <  now
+      'live'         last_pkt + K >  now
+      'not_expired'  last_pkt + K >= now
+      'not_live'     last_pkt + K <= now"""
+    from iosa import lin
+    res = _now_resolver(d)
+    lk = "users[%s].%s" % (xk, field)
+    out = []
+    for f in d:
+        if (hist and f.kind != "hist") or (not hist and f.kind != "cmp"):
+            continue
+        g = f.fact if hist else f
+        n = lin.norm_cmp(g.l, g.op, g.r, res)
+        if n is None:
+            continue
+        atoms, op, c = n
+        at = dict(atoms)
+        if set(at) != {lk, "time(0)"} or at[lk] + at["time(0)"] != 0 or abs(at[lk]) != 1:
+            continue
+        if at[lk] == 1:
+            # last_pkt - now op c   ->   now - last_pkt op' -c
+            op = {"<=": ">=", ">=": "<=", "==": "==", "!=": "!="}[op]
+            c = -c
+        # now - last_pkt op c
+        if op == ">=":
+            out.append(("expired", c - 1))      # last_pkt + K <  now
+            out.append(("not_live", c))         # last_pkt + K <= now
+        elif op == "<=":
+            out.append(("live", c + 1))         # last_pkt + K >  now
+            out.append(("not_expired", c))      # last_pkt + K >= now
+    return out
+
+
+def has_liveness(d, xk, forms, hist=False):
+    return [k for f, k in liveness(d, xk, hist) if f in forms and k > 0]
